@@ -71,6 +71,7 @@ type tcInst struct {
 	stop       chan struct{}
 	stopDelay  time.Duration
 	FoldErr    string
+	selfExit   bool // this client's Run returns by itself shortly after start (a client that fails)
 	startDirty bool // a write to the subtree was accepted between the state fetch and the subscription taking effect
 }
 
@@ -112,6 +113,13 @@ func (c *testClient) Run() error {
 	h.mu.Lock()
 	c.rec.RunEnter = h.s.Step
 	h.mu.Unlock()
+	if c.rec.selfExit {
+		time.Sleep(500 * time.Millisecond)
+		h.mu.Lock()
+		c.rec.RunExit = max(h.s.Step, 1)
+		h.mu.Unlock()
+		return fmt.Errorf("client failed")
+	}
 	<-c.rec.stop
 	if c.rec.stopDelay > 0 {
 		time.Sleep(c.rec.stopDelay)
@@ -174,6 +182,15 @@ func (h *mgrHarness) construct(nc *nats.Conn, cfg TestNode) client.Client {
 	}
 	sort.Strings(rec.KidIDs)
 	rec.stopDelay = time.Duration(mix(h.s.Seed, uint64(rec.N))%5) * time.Second
+	// a client whose Run gives up by itself (fenced off while finding F-C07-client-exit-not-restarted is open); only the
+	// first instance of a placement fails, a restarted one works
+	first := true
+	for _, o := range h.ins {
+		if o.Key == rec.Key {
+			first = false
+		}
+	}
+	rec.selfExit = first && fenceOpen("client-self-exit") && mix(h.s.Seed, uint64(rec.N)+5000)%5 == 0
 	h.ins = append(h.ins, rec)
 	h.pendingSub = rec
 	if q0, ok := h.lastNodesReq[cfg.Parent]; ok {
@@ -442,6 +459,12 @@ func (h *mgrHarness) checkQuiescent(prop string) {
 	}
 	for k := range want {
 		if running[k] == nil {
+			for _, in := range h.ins {
+				if in.Key == k && in.selfExit && in.Stops == 0 {
+					s.Fail("C07", "client-exited-not-restarted", "client #%d for live placement %s returned from Run by itself and was never replaced: no client runs for it after 3 quiet simulated minutes", in.N, k)
+					return
+				}
+			}
 			s.Fail("C07", "missing-client", "no client is running for live placement %s after 3 quiet simulated minutes; running: %v", k, keysOfInst(running))
 			return
 		}
